@@ -30,7 +30,7 @@ def fn_list():
 
 SPECIAL = os.path.join(ROOT, "build", "seq", "special")
 SPECIAL_SRC = [os.path.join(ROOT, "engine", "seq", "special.c")]
-SPECIAL_PROPS = {"C01", "C02", "C03", "C04", "C05", "C08"}
+SPECIAL_PROPS = {"C01", "C02", "C03", "C04", "C05", "C06", "C08"}
 
 
 def build_harness():
@@ -63,7 +63,7 @@ def run(pid, tier, deadline_s):
     if pid in SPECIAL_PROPS:
         for v in VARIANTS[pid]:
             for loc in ("C", "C.UTF-8"):
-                for grp in ("printf", "wprintf", "unicode", "os"):
+                for grp in (("os",) if pid == "C06" else ("printf", "wprintf", "unicode", "conv", "os")):
                     tasks.append(("special:" + grp, v, loc, 0, 1))
 
     def one(t):
